@@ -160,8 +160,18 @@ impl Remover {
             let start_cursor = Self::merge_child_markers(child_markers.iter(), &mut marker);
 
             if let Some(mut end_marker) = pair {
+                // Children already merged into the opening part are not offered to the closing part.
                 let end_cursor = child_markers.len()
-                    - Self::merge_child_markers(child_markers.iter().rev(), &mut end_marker);
+                    - Self::merge_child_markers(
+                        child_markers[start_cursor..].iter().rev(),
+                        &mut end_marker,
+                    );
+
+                if marker.end >= end_marker.start {
+                    // A child marker joined both parts: nothing is left between them.
+                    acc.push((marker.start..end_marker.end, None));
+                    return acc;
+                }
 
                 let current = acc.len();
                 acc.push((
